@@ -1,11 +1,11 @@
 SPECIFICATION Spec
 CONSTANTS
   Params <- ParamsArith
-  Vals <- ValsA
+  Vals <- ValsAt
   MaxB = 3
-  MaxRows = 5
+  MaxRows = 6
   Ops <- ArithOps
-  Variant = "naive"
+  Variant = "chan"
   Depth = 0
 INVARIANT MomentsDef
 INVARIANT CountDef
